@@ -1,8 +1,1088 @@
+//! C08 — generalized hash tries (`lattices::ght`) behave as sets of tuples.
+//!
+//! Real tries of five compile-time shapes (x three leaf storages) are driven through insert / merge
+//! histories; after every operation everything the trie reports — `recursive_iter`, `contains`,
+//! `prefix_iter` for every prefix, `find_containing_leaf`, `get`/`iter`/`iter_tuples` at every level,
+//! `==`, `partial_cmp`, `naive_cmp`, the `merge` flag, `is_bot`, and the outputs of the join
+//! bimorphisms — is compared with a `BTreeMap<tuple, count>` model (set semantics for
+//! `VariadicHashSetStd` leaves, multiset semantics for counted / column leaves, which only get the
+//! non-lattice operations). COLT forests (`ColtGet::get`) and `force`/`force_drain` are judged by
+//! "no row is lost or duplicated, and a get returns exactly the rows with that prefix".
+
+mod shapes;
+
+use std::cmp::Ordering;
+use std::collections::{BTreeMap, BTreeSet, HashMap};
+
+use shapes::*;
+use vcommon::{Args, Reporter, Rng, Tier, Value, catch, hash_of, json};
+
+type Model = BTreeMap<Row, usize>;
+
+fn model_add(m: &mut Model, r: Row, n: usize, is_set: bool) {
+    let e = m.entry(r).or_insert(0);
+    if is_set {
+        *e = 1;
+    } else {
+        *e += n;
+    }
+}
+fn model_union(into: &mut Model, other: &Model, is_set: bool) {
+    for (r, n) in other {
+        model_add(into, *r, *n, is_set);
+    }
+}
+fn model_len(m: &Model) -> usize {
+    m.values().sum()
+}
+/// `rows` (any order) is exactly the multiset `m`.
+fn same_multiset(rows: &[Row], m: &Model) -> bool {
+    let mut rows = rows.to_vec();
+    rows.sort_unstable();
+    let mut i = 0;
+    for (r, n) in m {
+        for _ in 0..*n {
+            if i >= rows.len() || rows[i] != *r {
+                return false;
+            }
+            i += 1;
+        }
+    }
+    i == rows.len()
+}
+fn multiset(rows: &[Row]) -> Model {
+    let mut m = Model::new();
+    for r in rows {
+        *m.entry(*r).or_insert(0) += 1;
+    }
+    m
+}
+fn show(m: &Model) -> String {
+    let v: Vec<String> = m.iter().map(|(r, n)| if *n == 1 { format!("{:?}", unpack(*r)) } else { format!("{:?}x{}", unpack(*r), n) }).collect();
+    format!("{{{}}}", v.join(", "))
+}
+fn show_rows(rows: &[Row]) -> String {
+    show(&multiset(rows))
+}
+fn filter_prefix(m: &Model, p: &[u16]) -> Model {
+    m.iter().filter(|(r, _)| unpack(**r).starts_with(p)).map(|(r, n)| (*r, *n)).collect()
+}
+/// subset order of the supports (used for set-storage tries only)
+fn subset_order(a: &Model, b: &Model) -> Option<Ordering> {
+    let ab = a.keys().all(|r| b.contains_key(r));
+    let ba = b.keys().all(|r| a.contains_key(r));
+    match (ab, ba) {
+        (true, true) => Some(Ordering::Equal),
+        (true, false) => Some(Ordering::Less),
+        (false, true) => Some(Ordering::Greater),
+        (false, false) => None,
+    }
+}
+
+fn doms_for(wide: &[bool], k: usize) -> Vec<Vec<u16>> {
+    wide.iter().map(|w| (0..k as u16).map(|v| if *w { v * 257 } else { v }).collect()).collect()
+}
+fn all_tuples(doms: &[Vec<u16>]) -> Vec<Vec<u16>> {
+    let mut out: Vec<Vec<u16>> = vec![vec![]];
+    for d in doms {
+        let mut next = vec![];
+        for t in &out {
+            for v in d {
+                let mut t2 = t.clone();
+                t2.push(*v);
+                next.push(t2);
+            }
+        }
+        out = next;
+    }
+    out
+}
+/// every prefix of every length 0..=arity over the domain
+fn all_prefixes(doms: &[Vec<u16>]) -> Vec<Vec<u16>> {
+    let mut out = vec![vec![]];
+    for l in 1..=doms.len() {
+        out.extend(all_tuples(&doms[..l]));
+    }
+    out
+}
+
+// ---------------------------------------------------------------------------------------------
+// divergences
+
+struct Div {
+    prio: u8,
+    site: &'static str,
+    kind: String,
+    what: String,
+}
+
+#[derive(Default)]
+struct Divs {
+    v: Vec<Div>,
+    seen: HashMap<(&'static str, String), u32>,
+}
+impl Divs {
+    /// `what` is only rendered for the first occurrences of a (site, kind) — a defect that shows at
+    /// every step must not turn the run quadratic.
+    fn push(&mut self, prio: u8, site: &'static str, kind: &str, what: impl FnOnce() -> String) {
+        let n = self.seen.entry((site, kind.to_string())).or_insert(0);
+        *n += 1;
+        let what = if *n <= 40 { what() } else { String::new() };
+        self.v.push(Div { prio, site, kind: kind.to_string(), what });
+    }
+}
+
+fn ord_name(o: Option<Ordering>) -> &'static str {
+    match o {
+        None => "None",
+        Some(Ordering::Less) => "Less",
+        Some(Ordering::Equal) => "Equal",
+        Some(Ordering::Greater) => "Greater",
+    }
+}
+
+// ---------------------------------------------------------------------------------------------
+// pair histories
+
+#[derive(Clone, Debug, Hash, PartialEq, Eq)]
+enum Op {
+    InsA(Vec<u16>),
+    InsB(Vec<u16>),
+    /// `Merge::merge(&mut a, b.clone())`
+    MergeAB,
+    MergeBA,
+    /// `GeneralizedHashTrieNode::merge_node(&mut a, b.clone())`
+    MergeNodeAB,
+    MergeNodeBA,
+}
+impl Op {
+    fn to_json(&self) -> Value {
+        match self {
+            Op::InsA(r) => json!({"op":"insert","into":"A","row":r}),
+            Op::InsB(r) => json!({"op":"insert","into":"B","row":r}),
+            Op::MergeAB => json!({"op":"merge","into":"A"}),
+            Op::MergeBA => json!({"op":"merge","into":"B"}),
+            Op::MergeNodeAB => json!({"op":"merge_node","into":"A"}),
+            Op::MergeNodeBA => json!({"op":"merge_node","into":"B"}),
+        }
+    }
+    fn from_json(v: &Value) -> Op {
+        let a = v["into"] == "A";
+        match v["op"].as_str().expect("op") {
+            "insert" => {
+                let r: Vec<u16> = v["row"].as_array().expect("row").iter().map(|x| x.as_u64().unwrap() as u16).collect();
+                if a { Op::InsA(r) } else { Op::InsB(r) }
+            }
+            "merge" => {
+                if a { Op::MergeAB } else { Op::MergeBA }
+            }
+            "merge_node" => {
+                if a { Op::MergeNodeAB } else { Op::MergeNodeBA }
+            }
+            o => panic!("unknown op {o}"),
+        }
+    }
+    fn changes_a(&self) -> bool {
+        matches!(self, Op::InsA(_) | Op::MergeAB | Op::MergeNodeAB)
+    }
+}
+
+struct Pair<T: Trie> {
+    a: T,
+    b: T,
+    ma: Model,
+    mb: Model,
+    /// a mutating call panicked: the real structures are in an unknown state
+    poisoned: bool,
+}
+impl<T: Trie> Clone for Pair<T> {
+    fn clone(&self) -> Self {
+        Pair { a: self.a.clone(), b: self.b.clone(), ma: self.ma.clone(), mb: self.mb.clone(), poisoned: self.poisoned }
+    }
+}
+
+struct Ctx {
+    doms: Vec<Vec<u16>>,
+    tuples: Vec<Vec<u16>>,
+    prefixes: Vec<Vec<u16>>,
+}
+impl Ctx {
+    fn new(wide: &[bool], k: usize) -> Ctx {
+        let doms = doms_for(wide, k);
+        Ctx { tuples: all_tuples(&doms), prefixes: all_prefixes(&doms), doms }
+    }
+}
+
+impl<T: Trie> Pair<T> {
+    fn new() -> Self {
+        Pair { a: T::default(), b: T::default(), ma: Model::new(), mb: Model::new(), poisoned: false }
+    }
+
+    fn apply(&mut self, op: &Op, d: &mut Divs, rep: &mut Reporter) {
+        rep.eval();
+        match op {
+            Op::InsA(r) | Op::InsB(r) => {
+                let (t, m) = if op.changes_a() { (&mut self.a, &mut self.ma) } else { (&mut self.b, &mut self.mb) };
+                if let Err(p) = catch(|| t.insert(r)) {
+                    d.push(1, "insert", "panic", || p);
+                    self.poisoned = true;
+                }
+                model_add(m, pack(r), 1, T::IS_SET);
+            }
+            Op::MergeAB | Op::MergeBA => {
+                let (t, m, o, mo) = if op.changes_a() { (&mut self.a, &mut self.ma, &self.b, &self.mb) } else { (&mut self.b, &mut self.mb, &self.a, &self.ma) };
+                let before = m.clone();
+                model_union(m, mo, true);
+                let want = *m != before;
+                match catch(|| t.lat_merge(o.clone())) {
+                    Err(p) => {
+                        d.push(2, "merge", "panic", || p);
+                        self.poisoned = true;
+                    }
+                    Ok(None) => unreachable!("lattice merge on a non-lattice shape"),
+                    Ok(Some(got)) => {
+                        rep.count(if want { "merge_flag_true" } else { "merge_flag_false" });
+                        if got != want {
+                            d.push(2, "merge", &format!("changed-flag-wrong|expected-{want}"), || format!("merge({} <- {}) returned {got}", show(&before), show(mo)));
+                        }
+                    }
+                }
+            }
+            Op::MergeNodeAB | Op::MergeNodeBA => {
+                let (t, m, o, mo) = if op.changes_a() { (&mut self.a, &mut self.ma, &self.b, &self.mb) } else { (&mut self.b, &mut self.mb, &self.a, &self.ma) };
+                model_union(m, mo, T::IS_SET);
+                // the returned flag of merge_node is not documented: not judged
+                if let Err(p) = catch(|| t.merge_node(o.clone())) {
+                    d.push(3, "merge_node", "panic", || p);
+                    self.poisoned = true;
+                }
+            }
+        }
+    }
+}
+
+/// Everything one trie reports on its own.
+fn observe_single<T: Trie>(t: &T, m: &Model, cx: &Ctx, d: &mut Divs, rep: &mut Reporter) {
+    // recursive_iter
+    rep.eval();
+    match catch(|| t.rows()) {
+        Err(p) => d.push(10, "recursive_iter", "panic", || p),
+        Ok(rows) => {
+            if !same_multiset(&rows, m) {
+                d.push(10, "recursive_iter", "rows-differ-from-model", || format!("recursive_iter yields {}, model {}", show_rows(&rows), show(m)));
+            }
+        }
+    }
+    // contains, find_containing_leaf
+    for tup in &cx.tuples {
+        let r = pack(tup);
+        let want = m.contains_key(&r);
+        rep.evals(2);
+        match catch(|| t.contains(tup)) {
+            Err(p) => d.push(11, "contains", "panic", || p),
+            Ok(got) => {
+                if got != want {
+                    d.push(11, "contains", if want { "false-for-present" } else { "true-for-absent" }, || format!("contains({tup:?})={got}, model {}", show(m)));
+                }
+            }
+        }
+        match catch(|| t.leaf_rows(tup)) {
+            Err(p) => d.push(13, "find_containing_leaf", "panic", || p),
+            Ok(got) => match (got, want) {
+                (None, false) => {}
+                (None, true) => d.push(13, "find_containing_leaf", "none-for-present", || format!("find_containing_leaf({tup:?})=None, model {}", show(m))),
+                (Some(_), false) => d.push(13, "find_containing_leaf", "some-for-absent", || format!("find_containing_leaf({tup:?}) is Some, model {}", show(m))),
+                (Some(rows), true) => {
+                    let want_rows = filter_prefix(m, &tup[..T::KEYLEN]);
+                    if !same_multiset(&rows, &want_rows) {
+                        d.push(13, "find_containing_leaf", "wrong-leaf", || format!("leaf of {tup:?} holds {}, rows sharing its key are {}", show_rows(&rows), show(&want_rows)));
+                    }
+                }
+            },
+        }
+    }
+    // prefix_iter for every prefix length and value
+    for p in &cx.prefixes {
+        rep.eval();
+        match catch(|| t.prefix(p)) {
+            Err(e) => d.push(12, "prefix_iter", "panic", || e),
+            Ok(rows) => {
+                let want = filter_prefix(m, p);
+                if !same_multiset(&rows, &want) {
+                    let part = if p.len() <= T::KEYLEN { "key" } else { "value" };
+                    d.push(12, "prefix_iter", &format!("rows-differ-from-filter|prefix-ends-in-{part}-columns"), || format!("prefix_iter({p:?}) yields {}, filter of model gives {}", show_rows(&rows), show(&want)));
+                }
+            }
+        }
+    }
+    // get / iter / iter_tuples at every level
+    rep.eval();
+    match catch(|| t.walk(&cx.doms)) {
+        Err(p) => d.push(14, "get-iter", "panic", || p),
+        Ok((root, nodes)) => {
+            let check = |path: &[u16], n: &NodeObs, d: &mut Divs| {
+                let want = filter_prefix(m, path);
+                if !same_multiset(&n.rows, &want) {
+                    d.push(14, "get", "subtree-rows-differ", || format!("node at {path:?} holds {}, model filter {}", show_rows(&n.rows), show(&want)));
+                }
+                if n.is_leaf {
+                    if !same_multiset(&n.tuples, &want) {
+                        d.push(14, "iter_tuples", "leaf-tuples-differ", || format!("leaf at {path:?}: iter_tuples {}, model {}", show_rows(&n.tuples), show(&want)));
+                    }
+                    if n.heads_n != 0 || !n.leaf_get_none {
+                        d.push(14, "iter", "leaf-reports-heads", || format!("leaf at {path:?}: iter() yields {} heads, get()->None is {}", n.heads_n, n.leaf_get_none));
+                    }
+                } else {
+                    let want_heads: BTreeSet<u16> = want.keys().map(|r| unpack(*r)[path.len()]).collect();
+                    let mut got = n.heads.clone();
+                    got.sort_unstable();
+                    if got != want_heads.iter().copied().collect::<Vec<_>>() {
+                        d.push(14, "iter", "heads-differ", || format!("node at {path:?}: iter() yields {:?}, distinct next-column values are {want_heads:?}", n.heads));
+                    }
+                    if !n.tuples.is_empty() {
+                        d.push(14, "iter_tuples", "inner-yields-tuples", || format!("inner node at {path:?} yields {} tuples", n.tuples.len()));
+                    }
+                }
+            };
+            rep.evals(1 + nodes.len() as u64);
+            check(&[], &root, d);
+            for g in &nodes {
+                let want_present = !filter_prefix(m, &g.path).is_empty();
+                match &g.node {
+                    None => {
+                        if want_present {
+                            d.push(14, "get", "none-for-present-key", || format!("get along {:?} is None, model {}", g.path, show(m)));
+                        }
+                    }
+                    Some(n) => {
+                        // (an empty child is only possible through COLT gets, not in these histories)
+                        if !want_present {
+                            d.push(14, "get", "some-for-absent-key", || format!("get along {:?} is Some, model {}", g.path, show(m)));
+                        }
+                        check(&g.path, n, d);
+                    }
+                }
+            }
+        }
+    }
+    rep.eval();
+    match catch(|| (t.height(), T::static_height())) {
+        Err(p) => d.push(15, "height", "panic", || p),
+        Ok((h, hs)) => {
+            if h != T::KEYLEN || hs != T::KEYLEN {
+                d.push(15, "height", "wrong", || format!("height()={h}, HEIGHT={hs}, key length {}", T::KEYLEN));
+            }
+        }
+    }
+    if let Ok(Some(b)) = catch(|| t.lat_is_bot()) {
+        rep.eval();
+        if b != m.is_empty() {
+            d.push(20, "is_bot", if b { "true-for-nonempty" } else { "false-for-empty" }, || format!("is_bot()={b}, model {}", show(m)));
+        }
+    }
+    if let Ok(Some(true)) = catch(|| t.lat_is_top()) {
+        d.push(20, "is_top", "true", || format!("is_top()=true, model {}", show(m)));
+    }
+}
+
+fn cols(r: Row) -> Vec<u16> {
+    unpack(r)
+}
+fn cat(a: &[u16], b: &[u16]) -> Row {
+    let mut v = a.to_vec();
+    v.extend_from_slice(b);
+    pack(&v)
+}
+
+/// Pair relations: ==, partial_cmp, naive_cmp, joins.
+fn observe_pair<T: Trie>(st: &Pair<T>, with_joins: bool, d: &mut Divs, rep: &mut Reporter) {
+    let (a, b, ma, mb) = (&st.a, &st.b, &st.ma, &st.mb);
+    if !T::IS_SET {
+        return;
+    }
+    let want = subset_order(ma, mb);
+    if want.is_none() {
+        rep.count("incomparable_pairs");
+    }
+    for (x, y, mx, my, w, dir) in [(a, b, ma, mb, want, "A?B"), (b, a, mb, ma, want.map(|o| o.reverse()), "B?A")] {
+        rep.evals(3);
+        match catch(|| x.lat_eq(y)) {
+            Err(p) => d.push(21, "eq", "panic", || p),
+            Ok(None) => {}
+            Ok(Some(got)) => {
+                if got != (w == Some(Ordering::Equal)) {
+                    d.push(21, "eq", if got { "true-for-different" } else { "false-for-equal" }, || format!("{dir}: {} == {} gave {got}", show(mx), show(my)));
+                }
+            }
+        }
+        match catch(|| x.lat_cmp(y)) {
+            Err(p) => d.push(22, "partial_cmp", &format!("panic|expected-{}", ord_name(w)), || format!("{dir}: {}.partial_cmp({}) panicked: {p}", show(mx), show(my))),
+            Ok(None) => {}
+            Ok(Some(got)) => {
+                if got != w {
+                    d.push(22, "partial_cmp", &format!("wrong|expected-{}|got-{}", ord_name(w), ord_name(got)), || format!("{dir}: {}.partial_cmp({})", show(mx), show(my)));
+                }
+            }
+        }
+        match catch(|| x.lat_naive_cmp(y)) {
+            Err(p) => d.push(23, "naive_cmp", "panic", || p),
+            Ok(None) => {}
+            Ok(Some(got)) => {
+                if got != w {
+                    d.push(23, "naive_cmp", &format!("wrong|expected-{}|got-{}", ord_name(w), ord_name(got)), || format!("{dir}: {}.naive_cmp({})", show(mx), show(my)));
+                }
+            }
+        }
+    }
+    if !with_joins {
+        return;
+    }
+    rep.eval();
+    match catch(|| T::joins(a, b)) {
+        Err(p) => d.push(30, "join-bimorphisms", "panic", || p),
+        Ok(None) => {}
+        Ok(Some(j)) => {
+            let k = T::KEYLEN;
+            // nested-loop oracles
+            let mut deep = Model::new();
+            let mut cart = Model::new();
+            let mut valprod = Model::new();
+            let mut child: BTreeMap<u16, Model> = BTreeMap::new();
+            for ra in ma.keys() {
+                let ca = cols(*ra);
+                for rb in mb.keys() {
+                    let cb = cols(*rb);
+                    *cart.entry(cat(&ca, &cb)).or_insert(0) += 1;
+                    *valprod.entry(cat(&ca, &cb[k..])).or_insert(0) += 1;
+                    if ca[..k] == cb[..k] {
+                        *deep.entry(cat(&ca, &cb[k..])).or_insert(0) += 1;
+                    }
+                    if ca[0] == cb[0] {
+                        *child.entry(ca[0]).or_default().entry(cat(&ca[1..], &cb[1..])).or_insert(0) += 1;
+                    }
+                }
+            }
+            if !deep.is_empty() {
+                rep.count("deep_join_nonempty");
+            }
+            rep.evals(6 + child.len() as u64);
+            let mut judge = |site: &'static str, got: &[Row], want: &Model, as_set: bool| {
+                let ok = if as_set { multiset(got).keys().eq(want.keys()) && got.len() == want.len() } else { same_multiset(got, want) };
+                if !ok {
+                    let kind = if got.len() < model_len(want) { "rows-missing" } else if got.len() > model_len(want) { "rows-extra" } else { "rows-differ" };
+                    d.push(31, site, kind, || format!("{site}({}, {}) = {}, nested-loop join gives {}", show(ma), show(mb), show_rows(got), show(want)));
+                }
+            };
+            judge("DeepJoinLatticeBimorphism", &j.deep, &deep, true);
+            judge("GhtNodeKeyedBimorphism-stack", &j.stack, &deep, true);
+            judge("GhtCartesianProductBimorphism", &j.cart_vec, &cart, false);
+            judge("GhtCartesianProductBimorphism", &j.cart_leaf, &cart, true);
+            judge("GhtCartesianProductBimorphism", &j.cart_trie, &cart, true);
+            judge("GhtValTypeProductBimorphism", &j.valprod, &valprod, false);
+            let got_heads: BTreeSet<u16> = j.child_cart.iter().map(|x| x.0).collect();
+            let want_heads: BTreeSet<u16> = child.keys().copied().collect();
+            if got_heads != want_heads || got_heads.len() != j.child_cart.len() {
+                d.push(31, "GhtCartesianProductBimorphism-on-children", "common-heads-differ", || format!("children joined for heads {got_heads:?}, common first keys are {want_heads:?}"));
+            } else {
+                for (h, rows) in &j.child_cart {
+                    judge("GhtCartesianProductBimorphism-on-children", rows, &child[h], false);
+                }
+            }
+        }
+    }
+}
+
+/// `new_from` and `FromIterator` must build the same content as repeated `insert`.
+fn check_constructors<T: Trie>(ops: &[Op], d: &mut Divs, rep: &mut Reporter) {
+    let list: Vec<Vec<u16>> = ops.iter().filter_map(|o| if let Op::InsA(r) | Op::InsB(r) = o { Some(r.clone()) } else { None }).collect();
+    let mut m = Model::new();
+    for r in &list {
+        model_add(&mut m, pack(r), 1, T::IS_SET);
+    }
+    rep.evals(2);
+    match catch(|| (T::new_from(&list), T::from_iter(&list))) {
+        Err(p) => d.push(16, "new_from", "panic", || p),
+        Ok((x, y)) => {
+            match catch(|| (x.rows(), y.rows())) {
+                Err(p) => d.push(16, "new_from", "panic", || p),
+                Ok((rx, ry)) => {
+                    if !same_multiset(&rx, &m) {
+                        d.push(16, "new_from", "rows-differ-from-model", || format!("new_from({list:?}) holds {}", show_rows(&rx)));
+                    }
+                    if !same_multiset(&ry, &m) {
+                        d.push(16, "from_iter", "rows-differ-from-model", || format!("from_iter({list:?}) holds {}", show_rows(&ry)));
+                    }
+                }
+            }
+            if let Ok(Some(false)) = catch(|| x.lat_eq(&y)) {
+                d.push(21, "eq", "false-for-equal", || format!("new_from != from_iter for {list:?}"));
+            }
+        }
+    }
+}
+
+fn pair_case<T: Trie>(family: &str, k: usize, ops: &[Op]) -> Value {
+    json!({"engine":"mon_ght","family":family,"shape":T::NAME,"storage":T::STORAGE,"domain_k":k,
+           "ops": ops.iter().map(|o| o.to_json()).collect::<Vec<_>>()})
+}
+
+/// Report the highest-priority divergence of one step.
+fn report(rep: &mut Reporter, d: &mut Divs, what_ctx: &str, case: impl FnOnce() -> Value) -> bool {
+    if d.v.is_empty() {
+        return false;
+    }
+    d.v.sort_by_key(|x| x.prio);
+    let top = &d.v[0];
+    let sig = format!("C08|{}|{}", top.site, top.kind);
+    let detail = if top.what.is_empty() { "(detail suppressed after many repeats)" } else { &top.what };
+    let mut others: Vec<String> = d.v.iter().skip(1).map(|x| format!("{}:{}", x.site, x.kind)).collect();
+    others.dedup();
+    others.truncate(6);
+    let render = top.what.len() > 0;
+    let what = format!("{what_ctx}: {detail}{}", if others.is_empty() { String::new() } else { format!(" (also: {})", others.join(", ")) });
+    rep.violation(&sig, &what, if render { case() } else { Value::Null });
+    d.v.clear();
+    true
+}
+
+fn step_ctx<T: Trie>(ops: &[Op]) -> String {
+    format!("{} [{}], after op #{} {}", T::NAME, T::STORAGE, ops.len(), ops.last().map(|o| o.to_json().to_string()).unwrap_or_default())
+}
+
+fn alphabet<T: Trie>(cx: &Ctx, lattice: bool) -> Vec<Op> {
+    let mut a = vec![];
+    for t in &cx.tuples {
+        a.push(Op::InsA(t.clone()));
+        a.push(Op::InsB(t.clone()));
+    }
+    if lattice {
+        // the roles of A and B are symmetric in the alphabet: merging into A with the lattice merge and
+        // into B with merge_node loses no state up to renaming
+        a.push(Op::MergeAB);
+        a.push(Op::MergeNodeBA);
+    } else {
+        a.push(Op::MergeNodeAB);
+        a.push(Op::MergeNodeBA);
+    }
+    a
+}
+
+fn note_nontrivial<T: Trie>(rep: &mut Reporter, st: &Pair<T>, family: &str, k: usize, ops: &[Op], sample: bool) {
+    let mut u = st.ma.clone();
+    model_union(&mut u, &st.mb, true);
+    if !st.ma.is_empty() && !st.mb.is_empty() && u.len() >= 2 {
+        rep.nontrivial(hash_of(&(T::NAME, T::STORAGE, ops)));
+        if sample {
+            rep.sample(|| pair_case::<T>(family, k, ops));
+        }
+    }
+}
+
+fn dfs<T: Trie>(rep: &mut Reporter, st: &Pair<T>, ops: &mut Vec<Op>, alpha: &[Op], cx: &Ctx, depth: usize, d: &mut Divs) {
+    if depth == 0 {
+        return;
+    }
+    for op in alpha {
+        let mut st2 = st.clone();
+        ops.push(op.clone());
+        st2.apply(op, d, rep);
+        if !st2.poisoned {
+            if op.changes_a() {
+                observe_single(&st2.a, &st2.ma, cx, d, rep);
+            } else {
+                observe_single(&st2.b, &st2.mb, cx, d, rep);
+            }
+            observe_pair(&st2, true, d, rep);
+            if depth == 1 {
+                check_constructors::<T>(ops, d, rep);
+            }
+        }
+        rep.count(&format!("nodes:{}:{}", T::NAME, T::STORAGE));
+        report(rep, d, &step_ctx::<T>(ops), || pair_case::<T>("exhaustive", 2, ops));
+        if !st2.poisoned {
+            note_nontrivial(rep, &st2, "exhaustive", 2, ops, depth == 1);
+            dfs(rep, &st2, ops, alpha, cx, depth - 1, d);
+        }
+        ops.pop();
+    }
+}
+
+fn exhaustive<T: Trie>(rep: &mut Reporter, args: &Args, depth_set: usize, depth_multi: usize, case_no: &mut usize) {
+    // Miri: all five set-storage shapes, and one shape for each multiset storage
+    if args.tier == Tier::Miri && !(T::IS_SET || (T::NAME == "(u8,u8 => u8)" && T::STORAGE == "VariadicCountedHashSetStd") || (T::NAME == "(u8 => u16,u8)" && T::STORAGE == "VariadicColumnMultiset")) {
+        return;
+    }
+    *case_no += 1;
+    if !args.in_shard(*case_no) {
+        return;
+    }
+    let cx = Ctx::new(T::WIDE, 2);
+    let alpha = alphabet::<T>(&cx, T::IS_SET);
+    let mut depth = if T::IS_SET { depth_set } else { depth_multi };
+    if T::arity() == 2 && args.tier != Tier::Miri {
+        depth = depth.max(5); // 10-letter alphabet: depth 5 is cheap
+    }
+    let st = Pair::<T>::new();
+    let mut d = Divs::default();
+    // the empty pair
+    observe_single(&st.a, &st.ma, &cx, &mut d, rep);
+    observe_pair(&st, true, &mut d, rep);
+    report(rep, &mut d, &step_ctx::<T>(&[]), || pair_case::<T>("exhaustive", 2, &[]));
+    dfs(rep, &st, &mut vec![], &alpha, &cx, depth, &mut d);
+    rep.count("exhaustive_families");
+    rep.extra(&format!("depth:{}:{}", T::NAME, T::STORAGE), json!(depth));
+}
+
+/// One complete history, observed after every operation (random family and replay).
+fn run_pair_history<T: Trie>(rep: &mut Reporter, family: &str, k: usize, ops: &[Op]) {
+    let cx = Ctx::new(T::WIDE, k);
+    let mut st = Pair::<T>::new();
+    let mut d = Divs::default();
+    let mut rng = Rng::new(hash_of(&(T::NAME, ops)));
+    for i in 0..ops.len() {
+        st.apply(&ops[i], &mut d, rep);
+        if st.poisoned {
+            report(rep, &mut d, &step_ctx::<T>(&ops[..=i]), || pair_case::<T>(family, k, &ops[..=i]));
+            return;
+        }
+        if ops[i].changes_a() {
+            observe_single(&st.a, &st.ma, &cx, &mut d, rep);
+        } else {
+            observe_single(&st.b, &st.mb, &cx, &mut d, rep);
+        }
+        // joins are quadratic: always on small states and at the end, otherwise sampled
+        let small = st.ma.len() * st.mb.len() <= 150;
+        let joins = small || i + 1 == ops.len() || rng.chance(1, 8) || family == "replay";
+        observe_pair(&st, joins, &mut d, rep);
+        report(rep, &mut d, &step_ctx::<T>(&ops[..=i]), || pair_case::<T>(family, k, &ops[..=i]));
+    }
+    check_constructors::<T>(ops, &mut d, rep);
+    report(rep, &mut d, &step_ctx::<T>(ops), || pair_case::<T>(family, k, ops));
+    rep.count(&format!("histories:{}:{}", T::NAME, T::STORAGE));
+    note_nontrivial(rep, &st, family, k, ops, true);
+}
+
+fn random_ops<T: Trie>(rng: &mut Rng, k: usize, max_ops: usize) -> Vec<Op> {
+    let cx = Ctx::new(T::WIDE, k);
+    // sometimes confine to a few tuples / one first key so that duplicates and shared keys are common
+    let narrow = rng.below(3);
+    let pick = |rng: &mut Rng| -> Vec<u16> {
+        let mut t = rng.choose(&cx.tuples).clone();
+        if narrow == 1 {
+            t[0] = cx.doms[0][0];
+        } else if narrow == 2 {
+            t = cx.tuples[rng.below(cx.tuples.len().min(6))].clone();
+        }
+        t
+    };
+    let n = 1 + rng.below(max_ops);
+    (0..n)
+        .map(|_| {
+            let x = rng.below(100);
+            if x < 42 {
+                Op::InsA(pick(rng))
+            } else if x < 84 {
+                Op::InsB(pick(rng))
+            } else if T::IS_SET {
+                match x % 4 {
+                    0 => Op::MergeAB,
+                    1 => Op::MergeBA,
+                    2 => Op::MergeNodeAB,
+                    _ => Op::MergeNodeBA,
+                }
+            } else if x % 2 == 0 {
+                Op::MergeNodeAB
+            } else {
+                Op::MergeNodeBA
+            }
+        })
+        .collect()
+}
+
+// ---------------------------------------------------------------------------------------------
+// COLT
+
+#[derive(Clone, Debug, Hash, PartialEq, Eq)]
+enum COp {
+    Ins(Vec<u16>),
+    Get(Vec<u16>),
+}
+impl COp {
+    fn to_json(&self) -> Value {
+        match self {
+            COp::Ins(r) => json!({"op":"insert-first","row":r}),
+            COp::Get(p) => json!({"op":"get","path":p}),
+        }
+    }
+    fn from_json(v: &Value) -> COp {
+        let l = |x: &Value| -> Vec<u16> { x.as_array().expect("list").iter().map(|c| c.as_u64().unwrap() as u16).collect() };
+        match v["op"].as_str().expect("op") {
+            "insert-first" => COp::Ins(l(&v["row"])),
+            "get" => COp::Get(l(&v["path"])),
+            o => panic!("unknown colt op {o}"),
+        }
+    }
+}
+
+fn colt_case<F: Forest>(family: &str, ops: &[COp]) -> Value {
+    json!({"engine":"mon_ght","family":family,"forest":F::NAME,"ops":ops.iter().map(|o| o.to_json()).collect::<Vec<_>>()})
+}
+
+/// Apply one COLT operation and judge it. Returns false if the forest can no longer be trusted.
+fn colt_step<F: Forest>(f: &mut F, m: &mut Model, op: &COp, d: &mut Divs, rep: &mut Reporter) -> bool {
+    rep.eval();
+    match op {
+        COp::Ins(r) => {
+            model_add(m, pack(r), 1, false);
+            if let Err(p) = catch(|| f.insert_first(r)) {
+                d.push(1, "colt-insert", "panic", || p);
+                return false;
+            }
+        }
+        COp::Get(path) => match catch(|| f.get_path(path)) {
+            Err(p) => {
+                d.push(40, "ColtGet::get", "panic", || p);
+                return false;
+            }
+            Ok(nodes) => {
+                let got: Vec<Row> = nodes.iter().flatten().copied().collect();
+                let want = filter_prefix(m, path);
+                if !want.is_empty() {
+                    rep.count("colt_get_nonempty");
+                }
+                if !same_multiset(&got, &want) {
+                    let kind = if got.len() < model_len(&want) { "rows-missing" } else if got.len() > model_len(&want) { "rows-extra" } else { "rows-differ" };
+                    d.push(40, "ColtGet::get", &format!("{kind}|path-len-{}", path.len()), || format!("get along {path:?} returns nodes holding {}, rows with that prefix are {}", show_rows(&got), show(&want)));
+                }
+            }
+        },
+    }
+    rep.eval();
+    match catch(|| f.tries()) {
+        Err(p) => {
+            d.push(41, "colt-forest", "panic", || p);
+            return false;
+        }
+        Ok(tries) => {
+            let all: Vec<Row> = tries.iter().flatten().copied().collect();
+            if !same_multiset(&all, m) {
+                let kind = if all.len() < model_len(m) { "rows-lost" } else if all.len() > model_len(m) { "rows-duplicated" } else { "rows-changed" };
+                d.push(41, "colt-forest", kind, || format!("forest tries hold {:?}, inserted {}", tries.iter().map(|t| show_rows(t)).collect::<Vec<_>>(), show(m)));
+            }
+        }
+    }
+    true
+}
+
+fn colt_alphabet(cx: &Ctx) -> Vec<COp> {
+    let mut a: Vec<COp> = cx.tuples.iter().map(|t| COp::Ins(t.clone())).collect();
+    a.extend(cx.prefixes.iter().filter(|p| !p.is_empty()).map(|p| COp::Get(p.clone())));
+    a
+}
+
+fn colt_dfs<F: Forest + Clone>(rep: &mut Reporter, f: &F, m: &Model, ops: &mut Vec<COp>, alpha: &[COp], depth: usize, d: &mut Divs) {
+    if depth == 0 {
+        return;
+    }
+    for op in alpha {
+        let mut f2 = f.clone();
+        let mut m2 = m.clone();
+        ops.push(op.clone());
+        let ok = colt_step(&mut f2, &mut m2, op, d, rep);
+        rep.count(&format!("colt_nodes:{}", F::NAME));
+        report(rep, d, &format!("{} after op #{} {}", F::NAME, ops.len(), op.to_json()), || colt_case::<F>("colt-exhaustive", ops));
+        if ok {
+            if m2.len() >= 2 && ops.iter().any(|o| matches!(o, COp::Get(_))) {
+                rep.nontrivial(hash_of(&(F::NAME, &*ops)));
+                if depth == 1 {
+                    rep.sample(|| colt_case::<F>("colt-exhaustive", ops));
+                }
+            }
+            colt_dfs(rep, &f2, &m2, ops, alpha, depth - 1, d);
+        }
+        ops.pop();
+    }
+}
+
+fn colt_history<F: Forest>(rep: &mut Reporter, family: &str, ops: &[COp]) {
+    let mut f = F::default();
+    let mut m = Model::new();
+    let mut d = Divs::default();
+    for i in 0..ops.len() {
+        let ok = colt_step(&mut f, &mut m, &ops[i], &mut d, rep);
+        report(rep, &mut d, &format!("{} after op #{} {}", F::NAME, i + 1, ops[i].to_json()), || colt_case::<F>(family, &ops[..=i]));
+        if !ok {
+            return;
+        }
+    }
+    rep.count(&format!("colt_histories:{}", F::NAME));
+    if m.len() >= 2 && ops.iter().any(|o| matches!(o, COp::Get(_))) {
+        rep.nontrivial(hash_of(&(F::NAME, ops)));
+        rep.sample(|| colt_case::<F>(family, ops));
+    }
+}
+
+fn colt_family<F: Forest + Clone>(rep: &mut Reporter, args: &Args, rng: &mut Rng, depth: usize, n_random: usize, case_no: &mut usize) {
+    let miri = args.tier == Tier::Miri;
+    *case_no += 1;
+    if !args.in_shard(*case_no) {
+        return;
+    }
+    let cx = Ctx::new(F::WIDE, 2);
+    let alpha = colt_alphabet(&cx);
+    let mut d = Divs::default();
+    colt_dfs(rep, &F::default(), &Model::new(), &mut vec![], &alpha, depth, &mut d);
+    let cx4 = Ctx::new(F::WIDE, if miri { 2 } else { 4 });
+    for _ in 0..n_random {
+        let n = 1 + rng.below(if miri { 10 } else { 60 });
+        let narrow = rng.chance(1, 2);
+        let ops: Vec<COp> = (0..n)
+            .map(|_| {
+                let mut t = rng.choose(&cx4.tuples).clone();
+                if narrow {
+                    t[0] = cx4.doms[0][rng.below(2)];
+                }
+                if rng.chance(2, 3) {
+                    COp::Ins(t)
+                } else {
+                    let l = 1 + rng.below(t.len());
+                    COp::Get(t[..l].to_vec())
+                }
+            })
+            .collect();
+        colt_history::<F>(rep, "colt-random", &ops);
+    }
+    rep.count("colt_families");
+}
+
+// ---------------------------------------------------------------------------------------------
+// force
+
+fn force_case<L: ForceLeaf>(rows: &[Vec<u16>]) -> Value {
+    json!({"engine":"mon_ght","family":"force","storage":L::STORAGE,"rows":rows})
+}
+
+fn force_check<L: ForceLeaf>(rep: &mut Reporter, rows: &[Vec<u16>]) {
+    let wide = [false, true, false];
+    let k = 4;
+    let doms = doms_for(&wide, k);
+    let mut m = Model::new();
+    for r in rows {
+        model_add(&mut m, pack(r), 1, L::IS_SET);
+    }
+    let mut d = Divs::default();
+    rep.evals(5);
+    match catch(|| L::run(rows, &doms)) {
+        Err(p) => d.push(50, "force", "panic", || p),
+        Ok(o) => {
+            match &o.forced_rows {
+                None => d.push(50, "force", "none-on-leaf", || "force() on a leaf returned None".into()),
+                Some(r) => {
+                    if !same_multiset(r, &m) {
+                        d.push(50, "force", "rows-differ", || format!("force() result holds {}, leaf held {}", show_rows(r), show(&m)));
+                    }
+                    if o.forced_height != 1 {
+                        d.push(50, "force", "height-not-1", || format!("height {}", o.forced_height));
+                    }
+                    if let Some((root, nodes)) = &o.forced_walk {
+                        let heads: BTreeSet<u16> = m.keys().map(|r| unpack(*r)[0]).collect();
+                        let mut got = root.heads.clone();
+                        got.sort_unstable();
+                        if got != heads.iter().copied().collect::<Vec<_>>() {
+                            d.push(50, "force", "heads-differ", || format!("forced node has heads {:?}, first columns are {heads:?}", root.heads));
+                        }
+                        for g in nodes {
+                            let want = filter_prefix(&m, &g.path);
+                            let got_rows = g.node.as_ref().map(|n| n.rows.clone()).unwrap_or_default();
+                            if !same_multiset(&got_rows, &want) {
+                                d.push(50, "force", "child-rows-differ", || format!("child {:?} holds {}, expected {}", g.path, show_rows(&got_rows), show(&want)));
+                            }
+                        }
+                    }
+                    if !o.inner_force_is_none {
+                        d.push(50, "force", "some-on-inner", || "force() on an inner node returned Some".into());
+                    }
+                }
+            }
+            match &o.drained_rows {
+                None => d.push(51, "force_drain", "none-on-leaf", || "force_drain() on a leaf returned None".into()),
+                Some(r) => {
+                    if !same_multiset(r, &m) {
+                        d.push(51, "force_drain", "rows-differ", || format!("force_drain() result holds {}, leaf held {}", show_rows(r), show(&m)));
+                    }
+                    if !o.leaf_after_drain.is_empty() {
+                        d.push(51, "force_drain", "leaf-not-emptied", || format!("leaf still holds {}", show_rows(&o.leaf_after_drain)));
+                    }
+                }
+            }
+        }
+    }
+    rep.count(&format!("force_cases:{}", L::STORAGE));
+    if !report(rep, &mut d, &format!("GhtLeaf<(u8,u16,u8)> [{}] from {} rows", L::STORAGE, rows.len()), || force_case::<L>(rows)) && m.len() >= 2 {
+        rep.nontrivial(hash_of(&("force", L::STORAGE, rows)));
+    }
+}
+
+fn force_family<L: ForceLeaf>(rep: &mut Reporter, args: &Args, rng: &mut Rng) {
+    let wide = [false, true, false];
+    let t2 = all_tuples(&doms_for(&wide, 2));
+    let t4 = all_tuples(&doms_for(&wide, 4));
+    let miri = args.tier == Tier::Miri;
+    // every sequence of <= 3 rows over {0,1}^3 (<= 1 under Miri)
+    let maxlen = if miri { 1 } else { 3 };
+    let mut seqs: Vec<Vec<Vec<u16>>> = vec![vec![]];
+    let mut frontier = seqs.clone();
+    for _ in 0..maxlen {
+        let mut next = vec![];
+        for s in &frontier {
+            for t in &t2 {
+                let mut s2 = s.clone();
+                s2.push(t.clone());
+                next.push(s2);
+            }
+        }
+        seqs.extend(next.iter().cloned());
+        frontier = next;
+    }
+    for (i, s) in seqs.iter().enumerate() {
+        if miri && !args.in_shard(i) {
+            continue;
+        }
+        force_check::<L>(rep, s);
+    }
+    for _ in 0..args.budget(300, 6000, 1) {
+        let n = rng.below(if miri { 7 } else { 40 });
+        let rows: Vec<Vec<u16>> = (0..n).map(|_| rng.choose(&t4).clone()).collect();
+        force_check::<L>(rep, &rows);
+    }
+}
+
+// ---------------------------------------------------------------------------------------------
+// dispatch
+
+macro_rules! for_all_shapes {
+    ($m:ident, $($a:expr),*) => {{
+        $m::<A11H>($($a),*); $m::<A11C>($($a),*); $m::<A11V>($($a),*);
+        $m::<A21H>($($a),*); $m::<A21C>($($a),*); $m::<A21V>($($a),*);
+        $m::<A12H>($($a),*); $m::<A12C>($($a),*); $m::<A12V>($($a),*);
+        $m::<A30H>($($a),*); $m::<A30C>($($a),*); $m::<A30V>($($a),*);
+        $m::<W12H>($($a),*); $m::<W12C>($($a),*); $m::<W12V>($($a),*);
+    }};
+}
+
+fn random_one<T: Trie>(rep: &mut Reporter, which: usize, idx: &mut usize, rng: &mut Rng, max_ops: usize, k: usize) {
+    if *idx == which {
+        let ops = random_ops::<T>(rng, k, max_ops);
+        run_pair_history::<T>(rep, "random", k, &ops);
+    }
+    *idx += 1;
+}
+
+fn replay_pair<T: Trie>(rep: &mut Reporter, case: &Value, done: &mut bool) {
+    if *done || case["shape"] != T::NAME || case["storage"] != T::STORAGE {
+        return;
+    }
+    *done = true;
+    let ops: Vec<Op> = case["ops"].as_array().expect("ops").iter().map(Op::from_json).collect();
+    let mut k = case["domain_k"].as_u64().unwrap_or(4) as usize;
+    for o in &ops {
+        if let Op::InsA(r) | Op::InsB(r) = o {
+            for (c, v) in r.iter().enumerate() {
+                let v = if T::WIDE[c] { v / 257 } else { *v } as usize;
+                k = k.max(v + 1);
+            }
+        }
+    }
+    run_pair_history::<T>(rep, "replay", k, &ops);
+}
+
+fn replay(rep: &mut Reporter, case: &Value) {
+    let fam = case["family"].as_str().unwrap_or("");
+    if fam.starts_with("colt") {
+        let ops: Vec<COp> = case["ops"].as_array().expect("ops").iter().map(COp::from_json).collect();
+        match case["forest"].as_str().unwrap_or("") {
+            n if n == Colt2::NAME => colt_history::<Colt2>(rep, "replay", &ops),
+            n if n == Colt3::NAME => colt_history::<Colt3>(rep, "replay", &ops),
+            n if n == Colt3W::NAME => colt_history::<Colt3W>(rep, "replay", &ops),
+            n => panic!("unknown forest {n}"),
+        }
+    } else if fam == "force" {
+        let rows: Vec<Vec<u16>> = case["rows"].as_array().expect("rows").iter().map(|r| r.as_array().unwrap().iter().map(|c| c.as_u64().unwrap() as u16).collect()).collect();
+        match case["storage"].as_str().unwrap_or("") {
+            "VariadicHashSetStd" => force_check::<L3H>(rep, &rows),
+            "VariadicCountedHashSetStd" => force_check::<L3C>(rep, &rows),
+            _ => force_check::<L3V>(rep, &rows),
+        }
+    } else {
+        let mut done = false;
+        for_all_shapes!(replay_pair, rep, case, &mut done);
+        if !done {
+            eprintln!("replay: unknown shape/storage");
+            std::process::exit(3);
+        }
+    }
+}
+
 fn main() {
-    let args = vcommon::Args::parse();
+    let args = Args::parse();
     if args.prop == "NONE" {
         return;
     }
-    eprintln!("not implemented yet");
-    std::process::exit(3);
+    let mut rep = Reporter::new("C08", args.seed);
+    if let Some(case) = args.replay_case() {
+        replay(&mut rep, &case);
+        rep.finish("replay", false);
+        return;
+    }
+    let miri = args.tier == Tier::Miri;
+    let mut rng = args.rng();
+    let t0 = std::time::Instant::now();
+
+    // (1) exhaustive pair histories over {0,1}^arity
+    let depth_set = args.budget(4, 5, 1);
+    let depth_multi = args.budget(3, 4, 1);
+    let mut case_no = 0usize;
+    for_all_shapes!(exhaustive, &mut rep, &args, depth_set, depth_multi, &mut case_no);
+    let t1 = t0.elapsed().as_secs_f64();
+
+    // (2) random pair histories over {0..3}^arity
+    let n_random = args.budget(3_000, 60_000, 3 * args.shard.1);
+    let max_ops = if miri { 6 } else { 60 };
+    let dom_k = if miri { 2 } else { 4 };
+    for i in 0..n_random {
+        let which = if miri { [9, 4, 14, 0, 6, 12, 3, 8, 13, 1, 2, 5, 7, 10, 11][i % 15] } else { rng.below(15) };
+        let mut r2 = rng.fork(i as u64);
+        if miri && !args.in_shard(i) {
+            continue;
+        }
+        let mut idx = 0usize;
+        for_all_shapes!(random_one, &mut rep, which, &mut idx, &mut r2, max_ops, dom_k);
+    }
+    let t2 = t0.elapsed().as_secs_f64();
+
+    // (3) COLT forests
+    let mut case_no = 0usize;
+    colt_family::<Colt2>(&mut rep, &args, &mut rng, args.budget(5, 5, 1), args.budget(300, 6000, 1), &mut case_no);
+    colt_family::<Colt3>(&mut rep, &args, &mut rng, args.budget(4, 5, 1), args.budget(300, 6000, 1), &mut case_no);
+    colt_family::<Colt3W>(&mut rep, &args, &mut rng, args.budget(4, 5, 1), args.budget(300, 6000, 1), &mut case_no);
+
+    // (4) force / force_drain
+    force_family::<L3H>(&mut rep, &args, &mut rng);
+    force_family::<L3C>(&mut rep, &args, &mut rng);
+    force_family::<L3V>(&mut rep, &args, &mut rng);
+    let t3 = t0.elapsed().as_secs_f64();
+    rep.extra("phase_seconds", json!({"exhaustive": t1, "random": t2 - t1, "colt+force": t3 - t2}));
+
+    if !miri {
+        rep.require(rep.counter("exhaustive_families") == 15, "not all 15 shape x storage combinations enumerated");
+        rep.require(rep.counter("colt_families") == 3, "not all 3 COLT forests visited");
+        rep.require(rep.counter("incomparable_pairs") >= 100, "fewer than 100 incomparable pairs compared");
+        rep.require(rep.counter("merge_flag_true") >= 100 && rep.counter("merge_flag_false") >= 100, "fewer than 100 changing / 100 non-changing lattice merges");
+        rep.require(rep.counter("deep_join_nonempty") >= 100, "fewer than 100 joins with a non-empty result");
+        rep.require(rep.counter("colt_get_nonempty") >= 100, "fewer than 100 COLT gets with a non-empty result");
+    }
+    rep.finish(
+        "five trie shapes ((u8=>u8), (u8,u8=>u8), (u8=>u8,u8), (u8,u8,u8=>), (u8=>u16,u8)) x three leaf storages. (1) every history of <= D operations on a pair of tries A, B from the alphabet {insert t into A, insert t into B : t in {0,1}^arity} + two merges (set storage: Merge::merge into A and merge_node into B; multiset storage: merge_node both ways); D = 4 quick / 5 thorough for set storage (5 always for the 2-column shape), one less for multiset storage; (2) random histories of <= 60 operations over {0..3}^arity; (3) COLT forests ColtType!(u8,u8), (u8,u8,u8), (u8,u16,u8): every history of inserts and gets (all paths) up to depth 5 (3-column forests: 4 in the quick tier) over {0,1}^arity plus random histories over {0..3}^arity; (4) force/force_drain on height-0 tries for every row sequence of length <= 3 over {0,1}^3 plus random lists. After every operation the changed trie is observed completely (recursive_iter, contains and find_containing_leaf for every tuple of the domain, prefix_iter for every prefix of every length, get/iter/iter_tuples along every key path, height, is_bot) and the pair is compared (==, partial_cmp, naive_cmp both ways, five join bimorphism outputs against nested-loop joins). Non-trivial = a distinct history ending with both tries non-empty and >= 2 distinct rows overall (COLT: >= 2 distinct rows and at least one get; force: >= 2 distinct rows)",
+        true,
+    );
 }
